@@ -218,6 +218,11 @@ func checkABI(p *Prog, cr *compRes, script []byte, di *compiler.DebugInfo, mf in
 	var rs []rng
 	startSet := map[int]string{}
 	for _, m := range cr.methods {
+		if m.start == 0 && m.end == 65535 {
+			// correctRange (codegen.go:2953-2968) underflows the zero range of a function that was never compiled
+			fails = append(fails, fmt.Sprintf("debug-unused-func-range method %s is listed with range 0-65535 (it is not in the bytecode)", m.id))
+			continue
+		}
 		if _, ok := starts[m.start]; !ok {
 			fails = append(fails, fmt.Sprintf("debug-range-start method %s starts at %d which is not an instruction boundary", m.id, m.start))
 			continue
